@@ -36,11 +36,12 @@ Definition fs_id_of (f : fs_spec) : N :=
 Definition enc_fs (f : fs_spec) : bytes :=
   enc 2 (fs_id_of f) ++ enc 2 (4 + lenN (fs_body_bytes f)) ++ fs_body_bytes f.
 
-(* what the collector knows after a flowset: template records are remembered, last wins *)
+(* what the collector knows after a flowset: template records are remembered, last wins, and an
+   id names one template: a definition of either kind supersedes the other kind's entry *)
 Definition learn_fs (s : v9state) (f : fs_spec) : v9state :=
   match f with
-  | FTemplates ts => {| v9_t := learn_templates ts (v9_t s); v9_o := v9_o s |}
-  | FOTemplates ts _ => {| v9_t := v9_t s; v9_o := learn_otemplates ts (v9_o s) |}
+  | FTemplates ts => {| v9_t := learn_templates ts (v9_t s); v9_o := remove_keys (map t_id ts) (v9_o s) |}
+  | FOTemplates ts _ => {| v9_t := remove_keys (map ot_id ts) (v9_t s); v9_o := learn_otemplates ts (v9_o s) |}
   | FData _ _ _ | FOData _ _ _ _ => s
   end.
 
